@@ -6,7 +6,7 @@ EXPLANATION = ('Guard live-range dataflow + call-graph reachability on the MIR o
                '(L1) the thread-local scratch vector borrowed in solve_triangular_m is never held across a call that can reach '
                'rayon (re-entrancy under work stealing would double-borrow the cell and, worse, let two columns share one '
                'scratch buffer); (L2) the union-find mutex in group_cols is never re-locked while a guard from the same object is '
-               'alive (std Mutex is not re-entrant: the temporaries\' lifetimes decide). Same on one thread and on many because the '
+               'alive (std Mutex is not re-entrant: the temporaries\' lifetimes decide). (L6) no call made through a second acquisition of a lock receives a value that was read under an earlier, released guard of the same lock (lost update: the union-find write must re-derive the roots it links). Same on one thread and on many because the '
                'rules quantify over code paths. (E17) the block expressions of the Schur reduction, read from the code, satisfy s = d - c a^-1 b, '
                'F_tgt*M*B_src = s, F*B = 1 and the chain-map conditions in the free non-commutative algebra, under the contract of the '
                'triangular solvers. NOT decided: that the solvers meet that contract (A*X = Y, scratch returns to zero), the block decomposition.')
@@ -26,6 +26,7 @@ def run(ctx, rep):
     rep.rule('E5', e5_locks.__doc__.strip().split('\n')[0])
     summ = e5_locks.Summaries(facts)
     e5_locks.check_guards(facts, rep, summ, in_scope, 'sparse kernels', 5)
+    e5_locks.check_stale_flow(facts, rep, in_scope, 'sparse kernels', 3)
     rep.rule('E17', e17_schur.__doc__.strip().split('\n')[0])
     e17_schur.run(facts, rep)
     sites = [s for s in summ.rayon_sites if any(s[0].startswith(p) for p in ('yui_matrix::sparse::triang', 'yui_matrix::sparse::schur', 'yui_matrix::sparse::decomp'))]
